@@ -327,6 +327,22 @@ func rewrite(j *fileJob, targets map[string]bool, opt Options, st *Stats) ([]byt
 			if !hasDefault && len(clauses) >= 2 {
 				var pre strings.Builder
 				closing := ""
+				// The other tie-break order is a legal choice too: when the run says so
+				// (one choice per run, part of the schedule tape) the cases are polled in
+				// reverse textual order, in front of a verbatim copy of the statement.
+				st.Selects++
+				pre.WriteString("if simhook.SelectReverse() { ")
+				revClosing := ""
+				for k := len(clauses) - 1; k >= 0; k-- {
+					cc := clauses[k]
+					a := j.fset.Position(cc.Pos()).Offset
+					b := j.fset.Position(cc.End()).Offset
+					pre.WriteString("select { " + string(j.src[a:b]) + "\ndefault: ")
+					revClosing += " }"
+				}
+				pre.WriteString(string(j.src[j.fset.Position(x.Pos()).Offset:j.fset.Position(x.End()).Offset]) + revClosing + " } else { ")
+				closing = " }"
+				usesHook = true
 				for _, cc := range clauses {
 					a := j.fset.Position(cc.Pos()).Offset
 					b := j.fset.Position(cc.End()).Offset
@@ -337,7 +353,6 @@ func rewrite(j *fileJob, targets map[string]bool, opt Options, st *Stats) ([]byt
 				pre.WriteString(fmt.Sprintf("\n//line %s:%d\n", j.path, line))
 				addIns(x.Pos(), pre.String(), 0)
 				addIns(x.End(), closing, 0)
-				st.Selects++
 			}
 		case *ast.BlockStmt:
 			instrList(x.List)
